@@ -30,6 +30,15 @@ PtSum(ps, i) == FoldLeft(LAMBDA acc, q : PtAdd(acc, q), Identity, SubSeq(ps, i, 
 \* sum of s_i * P_i   (ss may be shorter than ps: the unused points are ignored)
 MSM(ss, ps, i) == FoldLeft(LAMBDA acc, j : PtAdd(acc, SMul(ss[j], ps[j])), Identity, [j \in 1..(Len(ss) - i + 1) |-> j + i - 1])
 
+\* the same sum with shared doublings (Horner over the bit positions); equal to MSM by the
+\* group laws, checked against MSM on the toy curves (MC_ScalarMul), and much cheaper for large n
+MaxBitLen(ss) == FoldLeft(LAMBDA m, s : IF BitLen(s) > m THEN BitLen(s) ELSE m, 0, ss)
+MSMJoint(ss, ps) ==
+  LET n == MaxBitLen(ss)  idx == [i \in 1..Len(ss) |-> i] IN
+  FoldLeft(LAMBDA acc, j :
+             FoldLeft(LAMBDA a, i : IF BBit(ss[i], n - j) = 1 THEN PtAdd(a, ps[i]) ELSE a, PtDouble(acc), idx),
+           Identity, [j \in 1..n |-> j])
+
 \* ---- encodings ---------------------------------------------------------------
 Compress(p) == SetTop(p[2], IF FIsNeg(p[1]) THEN 1 ELSE 0)
 \* <<ok, point>>: y = low bits reduced; accepted iff (y^2-1)/(d y^2+1) is a square;
